@@ -140,8 +140,8 @@ def run_stream(S: Any, *, real_collector: bool, with_shm: bool, header_choice: b
 
     H["Reader.read_next_batch_with_custom_metadata"] = read_next
 
-    def drain(S, reader):
-        S.event("drained")
+    def drain(S, reader, shm=None):
+        S.event("drained", shm)
         if reader_may_fail and S.choose(2) == 1:
             raise_(pa.ArrowInvalid, "garbage after the stream")
 
